@@ -248,6 +248,14 @@ def facts_at(body, sym, facts, bb, unwind=False, _depth=0):
     return out
 
 
+def _fact_key(f):
+    try:
+        hash(f["expr"])
+        return (f["expr"], str(f["val"]))
+    except TypeError:
+        return (f["text"], str(f["val"]))
+
+
 def path_facts(body, sym, facts, bb, depth=3):
     """Fact sets, one per way of entering block bb: where several edges meet (an `A | B =>` arm, a shared exit), no single
     edge dominates, but each incoming edge carries its own facts.  A condition holds at bb if it holds in every set."""
@@ -282,10 +290,10 @@ def path_facts(body, sym, facts, bb, depth=3):
             edge = _edge_fact_dicts(body, sym, facts, p, vals)
         for fs in path_facts(body, sym, facts, p, depth - 1):
             alt = list(base)
-            have = {f["text"] for f in alt}
+            have = {_fact_key(f) for f in alt}
             for f in list(fs) + edge:
-                if f["text"] not in have:
-                    have.add(f["text"])
+                if _fact_key(f) not in have:
+                    have.add(_fact_key(f))
                     alt.append(f)
             out.append(alt)
     return out
